@@ -8,6 +8,7 @@ import Rl.Lemmas.EditorLoops
 import Rl.Lemmas.CompleteLoop
 import Rl.Lemmas.CompleteUndo
 import Rl.Lemmas.CompleteList
+import Rl.Lemmas.CompleteUndoCursor
 open Rl Rl.Spec
 
 /-- Circular order: Tab advances through candidates 0 … n-1, then the original text (index n),
@@ -522,3 +523,166 @@ example :
       simp only [Option.some.injEq, Prod.mk.injEq] at w
       obtain ⟨rfl, rfl⟩ := w
       exact ⟨s1, s2, CircPath.tab h1 (CircPath.nil _ _ _), h2⟩
+
+/-! ### one Undo after an accepted completion: the cursor; dispatch of the command handed back -/
+
+/-- **One Undo after an accepted completion restores the pre-completion text AND cursor** (emacs mode,
+    circular completion).  Hypotheses: those of `C14_undo_after_accept` (emacs mode; circular mode;
+    growable buffer; no undo group open; the undo stack is an exact log of the line) plus the ones the
+    other circular theorems use: the cursor and the completer's start are on character boundaries of
+    the line and start ≤ cursor.  What the model (`Changeset::undo` → `Change::undo`) does to the cursor:
+    every `Change::undo` step sets it (`Replace idx old new` ↦ `idx + old.len()`), so after one Undo of
+    the group it is where the undo step of the group's OLDEST change puts it.  Proved, for EVERY key
+    sequence inside the loop, if `complete_line` hands a command back:
+    (a) the group logged by the completion is `End :: pre ++ [Replace start y n] ++ Begin :: log before`
+        where `y` is the ORIGINAL text between the completer's start and the cursor (`pre` marker-free;
+        the first candidate shown is logged as this `Replace`, later ones are merged into it or pushed above);
+    (b) `Changeset::undo` with count 1 succeeds and leaves the pre-completion text, the cursor at
+        `start + |y|`, which IS the pre-completion cursor `s.line.pos`, and the undo stack from before. -/
+theorem C14_undo_after_accept_cursor (S : Segmenter) (U : UData) (cfg : EdCfg) (hvi : cfg.vi = false)
+    (hcirc : cfg.listCompletion = false) (s s' : Ed) (fuel : Nat) (cmd : Cmd) (t0 : Text)
+    (hrun : completeLine S U cfg fuel s = .ok (some cmd, s'))
+    (hg : s.line.canGrow = true) (hl0 : s.changes.level = 0)
+    (hlog : replayLog s.changes.undos.reverse t0 = some s.line.buf)
+    (hpos : IsBoundary s.line.buf s.line.pos)
+    (hstart : IsBoundary s.line.buf (cfg.completer s.line.buf s.line.pos).1)
+    (hle : (cfg.completer s.line.buf s.line.pos).1 ≤ s.line.pos) :
+    (∃ pre n y, (∀ ch ∈ pre, ch.isMarker = false) ∧
+      s.line.buf = takeB s.line.buf (cfg.completer s.line.buf s.line.pos).1 ++ y ++ dropB s.line.buf s.line.pos ∧
+      (cfg.completer s.line.buf s.line.pos).1 + blen y = s.line.pos ∧
+      s'.changes.undos = .end_ :: (pre ++ [.replace (cfg.completer s.line.buf s.line.pos).1 y n])
+        ++ .begin :: s.changes.undos) ∧
+    ∃ c' lb' undone, s'.changes.undo S U s'.line 1 = .ok (c', lb', undone) ∧
+      lb'.buf = s.line.buf ∧ lb'.pos = s.line.pos ∧ c'.undos = s.changes.undos := by
+  obtain ⟨⟨body, _, hb2, hb3, _, hb5⟩, _⟩ :=
+    C14_undo_after_accept S U cfg hvi hcirc s s' fuel cmd t0 hrun hg hl0 hlog
+  by_cases hne : (cfg.completer s.line.buf s.line.pos).2.isEmpty = true
+  · unfold completeLine at hrun
+    simp only [EM.bind_apply, getLine, hne, if_true] at hrun
+    cases hrun
+  · have hne' : (cfg.completer s.line.buf s.line.pos).2.isEmpty = false := by simpa using hne
+    rw [C14_completeLine_circular_eq S U cfg s fuel hcirc hne'] at hrun
+    have hlen : 0 < (cfg.completer s.line.buf s.line.pos).2.length := by
+      cases h : (cfg.completer s.line.buf s.line.pos).2 with
+      | nil => rw [h] at hne'; cases hne'
+      | cons a l => simp
+    obtain ⟨x, y, z, _, hbuf, hx, hp⟩ := split3_of_boundaries hstart hpos hle
+    generalize (cfg.completer s.line.buf s.line.pos).1 = start at *
+    generalize (cfg.completer s.line.buf s.line.pos).2 = cands at *
+    subst hx
+    have hrun' := hrun
+    rw [hbuf, hp] at hrun'
+    have hw := completeCircular_accept_oldest S U cfg hvi s.changes.undos x y z cands fuel
+      s.changes.undos.length 0 { s with changes := s.changes.begin.1 }
+      (Or.inl ⟨hg, hbuf, hp, rfl, hlen⟩)
+    obtain ⟨pre, n, hR⟩ := wp_ok hw hrun' cmd rfl
+    -- the two descriptions of the stack agree: `body = pre' ++ [Replace …]`
+    have hcancel : Change.end_ :: body = pre ++ [.replace (blen x) y n] := by
+      have e : (Change.end_ :: body) ++ (Change.begin :: s.changes.undos)
+          = (pre ++ [.replace (blen x) y n]) ++ (Change.begin :: s.changes.undos) := by
+        rw [← hb3, hR]; simp
+      exact List.append_cancel_right e
+    cases pre with
+    | nil => simp at hcancel
+    | cons p pre' =>
+      simp only [List.cons_append, List.cons.injEq] at hcancel
+      obtain ⟨_, hbody⟩ := hcancel
+      subst hbody
+      have hmp : ∀ ch ∈ pre', ch.isMarker = false := fun ch hch => hb2 ch (List.mem_append_left _ hch)
+      have hu : s'.changes.undos = .end_ :: (pre' ++ [.replace (blen x) y n]) ++ .begin :: s.changes.undos := hb3
+      refine ⟨⟨pre', n, y, hmp, ?_, hp.symm, hu⟩, ?_⟩
+      · rw [hp]
+        conv => rhs; rw [hbuf]
+        rw [dropB_append3, List.append_assoc x y z, takeB_append]
+        exact hbuf
+      · obtain ⟨c', lb', undone, h1, h2, h3, h4⟩ :=
+          undo_one_group_cursor S U s'.changes pre' s.changes.undos (blen x) y n t0 s.line.buf s'.line hu hmp hb5 hlog
+        exact ⟨c', lb', undone, h1, h2, by rw [h3, hp], h4⟩
+
+/-- the whole run of the witness (Tab, then Tab Tab Tab `x` inside the loop): one Undo gives back the
+    pre-completion text, the pre-completion CURSOR (byte 4) and the log from before -/
+example :
+    (match completeLine charSeg C14_wit_udata C14_wit_cfg 8 (C14_wit_state [[0x09], [0x09], [0x09], [0x78]]) with
+     | .ok (_, s) => (match s.changes.undo charSeg C14_wit_udata s.line 1 with
+                      | .ok (c, l, _) => some (l.buf, l.pos, c.undos)
+                      | .error _ => none)
+     | .error _ => none) = some (['l','s',' ','f',' ','x'], 4, []) := by decide +kernel
+
+/-- **The command that ends a completion is then executed normally** (clause "any other key keeps the
+    shown candidate and is then executed"; mirror of `C08_exit_command_dispatched`): with a helper
+    configured, the dispatcher `preCmds` on `Complete` runs `complete_line` and feeds the command it
+    hands back to itself again, on the state the completion left, exactly as if it had been typed there.
+    No hypothesis besides the run itself (any mode, circular or list). -/
+theorem C14_accept_command_dispatched (S : Segmenter) (U : UData) (cfg : EdCfg) (s s' : Ed) (fuel : Nat) (cmd : Cmd)
+    (hh : cfg.hasHelper = true)
+    (hrun : completeLine S U cfg fuel s = .ok (some cmd, s')) :
+    preCmds S U cfg (fuel + 1) .complete s = preCmds S U cfg fuel cmd s' := by
+  have h1 : (Cmd.complete == Cmd.complete && cfg.hasHelper) = true := by
+    rw [hh]; decide
+  conv => lhs; unfold preCmds
+  simp only [h1, if_true, EM.bind_apply, hrun]
+
+/-- … and when `complete_line` hands nothing back (Esc, no candidates, list shown) the dispatcher
+    returns to the main loop with no command -/
+theorem C14_abort_nothing_dispatched (S : Segmenter) (U : UData) (cfg : EdCfg) (s s' : Ed) (fuel : Nat)
+    (hh : cfg.hasHelper = true)
+    (hrun : completeLine S U cfg fuel s = .ok (none, s')) :
+    preCmds S U cfg (fuel + 1) .complete s = .ok (none, s') := by
+  have h1 : (Cmd.complete == Cmd.complete && cfg.hasHelper) = true := by
+    rw [hh]; decide
+  conv => lhs; unfold preCmds
+  simp only [h1, if_true, EM.bind_apply, hrun]
+  rfl
+
+/-- **Any other key keeps the shown candidate and is then executed** (circular mode, key by key).
+    Under the hypotheses of `C14_circular_key_by_key` (the turn of the loop that decodes `cmd` on the
+    state `s1` showing index `i'`), if `cmd` is none of `Complete` / `CompleteBackward` / `Abort`, then the
+    dispatcher started on the Tab (`preCmds … Complete`) continues as `preCmds … cmd` on `s1` with only
+    the undo group closed — a state whose line and cursor are exactly `Spec.shownFor` of `i'`; and if
+    moreover `cmd` needs no extra input (it is not `ReverseSearchHistory`) the dispatcher returns `cmd`
+    on that very state, which is what `mainLoop` then passes to `execute`. -/
+theorem C14_other_key_keeps_candidate_and_executes (S : Segmenter) (U : UData) (cfg : EdCfg) (s : Ed) (fuel : Nat)
+    (hh : cfg.hasHelper = true)
+    (hcirc : cfg.listCompletion = false) (hne : (cfg.completer s.line.buf s.line.pos).2.isEmpty = false)
+    (hg : s.line.canGrow = true) (hpos : IsBoundary s.line.buf s.line.pos)
+    (hstart : IsBoundary s.line.buf (cfg.completer s.line.buf s.line.pos).1)
+    (hle : (cfg.completer s.line.buf s.line.pos).1 ≤ s.line.pos)
+    (ks : List Bool) (fuel' i' : Nat) (sk s1 : Ed) (cmd : Cmd)
+    (hpath : CircPath S U cfg (cfg.completer s.line.buf s.line.pos).1 (cfg.completer s.line.buf s.line.pos).2
+      s.line.buf s.line.pos fuel 0 { s with changes := s.changes.begin.1 } ks (fuel' + 1) i' sk)
+    (hturn : circTurn S U cfg (cfg.completer s.line.buf s.line.pos).1 (cfg.completer s.line.buf s.line.pos).2
+      s.line.buf s.line.pos fuel' i' sk = .ok (cmd, s1))
+    (hend : Cmd.endsCompletion cmd) :
+    let s2 : Ed := { s1 with changes := s1.changes.end_.1 }
+    (s2.line.buf, s2.line.pos) =
+      shownFor (compSt (cfg.completer s.line.buf s.line.pos).1 (cfg.completer s.line.buf s.line.pos).2
+        s.line.buf s.line.pos i') ∧
+    preCmds S U cfg (fuel + 1) .complete s = preCmds S U cfg fuel cmd s2 ∧
+    (cmd ≠ .reverseSearchHistory → ∀ f, fuel = f + 1 → preCmds S U cfg (fuel + 1) .complete s = .ok (some cmd, s2)) := by
+  obtain ⟨_, hsh, hc⟩ := C14_circular_key_by_key S U cfg s fuel hcirc hne hg hpos hstart hle ks fuel' i' sk s1 cmd hpath hturn
+  have hrun := hc hend
+  have hd := C14_accept_command_dispatched S U cfg s _ fuel cmd hh hrun
+  refine ⟨hsh, hd, fun hr f hf => ?_⟩
+  rw [hd, hf]
+  unfold preCmds
+  have h1 : (cmd == Cmd.complete && cfg.hasHelper) = false := by
+    have : (cmd == Cmd.complete) = false := by
+      cases h : cmd == Cmd.complete with
+      | false => rfl
+      | true => exact absurd (by simpa using h) hend.1
+    rw [this]; rfl
+  have h2 : (cmd == Cmd.reverseSearchHistory) = false := by
+    cases h : cmd == Cmd.reverseSearchHistory with
+    | false => rfl
+    | true => exact absurd (by simpa using h) hr
+  simp only [h1, h2, Bool.false_eq_true, if_false]
+  rfl
+
+/-- non-vacuity of the dispatch theorems on the witness: a helper is configured, and the dispatcher
+    started on Tab with `Tab`, `x` pending returns `SelfInsert x` on the line showing the second
+    candidate "fu" (cursor after it) -/
+example : C14_wit_cfg.hasHelper = true := rfl
+example :
+    (preCmds charSeg C14_wit_udata C14_wit_cfg 9 .complete (C14_wit_state [[0x09], [0x78]])).toOption.map
+      (fun r => (r.1 == some (.selfInsert 1 'x'), r.2.line.buf, r.2.line.pos)) =
+    some (true, ['l','s',' ','f','u',' ','x'], 5) := by decide +kernel
